@@ -20,6 +20,20 @@ Numerical policy
   of an interior edge may fall on either side) and from them the set of
   admissible scores; the implementation's score must be one of them.  The
   kernel-density / Jensen-Shannon score is sign invariant and continuous.
+* Exactly decidable bin edges.  The freedom above exists because projections are
+  rounded.  Where they are not -- a retained component that is a signed unit
+  vector (a quantised feature next to constant / uncorrelated ones), raw or
+  power-of-two-standardised values, means and bin edges on a common dyadic grid
+  (see ``PCACDModel._exact_setup``: every sum / difference any evaluation order
+  forms is exact in binary64) -- a value that lies on an interior bin edge lies
+  there *exactly* in both windows, and "two histograms built on the same bin
+  edges" demands that it is counted on the same side in both.  For such a
+  component the admissible count vectors are only the two *consistent*
+  conventions (bins closed on the left, as numpy does, or closed on the right,
+  which is also what a sign flip of the component amounts to), applied to the
+  reference and the test window alike.  In particular a test window equal to the
+  reference window then has the single admissible score 0, also when all its
+  values sit on bin edges.
 * Reference windows whose principal components are not numerically
   identifiable (zero variance, two retained eigenvalues equal, cumulative
   explained variance within 1e-9 of ``ev_threshold``) and kernel density
@@ -138,6 +152,57 @@ def intersection_scores(ref_counts, test_counts, n):
     return out
 
 
+# ------------------------------------------------------- exactly decidable edges
+EXACT_BITS = 40  # values / means / edges: integer multiples of one power of two q, |v| < 2^40 q
+
+
+def _pow2(fr):
+    """fr is a positive power of two (2^k, k any integer)."""
+    if fr <= 0:
+        return False
+    n, d = fr.numerator, fr.denominator
+    return (n == 1 or d == 1) and (n & (n - 1)) == 0 and (d & (d - 1)) == 0
+
+
+def dyadic_grid_ok(frs, bits=EXACT_BITS):
+    """All numbers are integer multiples of one power of two q with |v| < 2^bits * q:
+    sums / differences of up to 2^(52 - bits) of them are exact in binary64 in any order."""
+    maxden = 1
+    for f in frs:
+        d = f.denominator
+        if d & (d - 1):
+            return False
+        if d > maxden:
+            maxden = d
+    lim = 1 << bits
+    for f in frs:
+        if abs(f.numerator) * (maxden // f.denominator) >= lim:
+            return False
+    return True
+
+
+def exact_counts(values, lo, hi, bins):
+    """Histogram counts of exact (Fraction) values on ``bins`` equal bins over
+    [lo, hi] under the two consistent conventions: A = bins closed on the left, last
+    bin closed (numpy), B = bins closed on the right, first bin closed.  Also
+    returns the number of values lying exactly on an interior edge."""
+    width = hi - lo
+    A = [0] * bins
+    B = [0] * bins
+    ties = 0
+    for v in values:
+        t = (v - lo) * bins / width
+        f = t.numerator // t.denominator
+        on_edge = t.denominator == 1
+        a = min(max(f, 0), bins - 1)
+        b = min(max(f - 1 if on_edge else f, 0), bins - 1)
+        if on_edge and 0 < f < bins:
+            ties += 1
+        A[a] += 1
+        B[b] += 1
+    return tuple(A), tuple(B), ties
+
+
 def kde_density(values, mag=0.0):
     """Epanechnikov kernel density estimate of ``values`` evaluated at the values
     themselves, bandwidth 1.06 * s * n^(-1/5) (s = sample standard deviation).
@@ -222,6 +287,7 @@ class PCACDModel:
         self.num_pcs = None
         self.checks = 0  # scores produced so far
         self.last = None  # details of the last check (diagnostics)
+        self.ex = []  # per retained component: exact-edge bookkeeping (dict) or None
 
     # -- fitting -------------------------------------------------------------
     def _scale(self, rows):
@@ -284,6 +350,88 @@ class PCACDModel:
                 self.ref_density.append(admissible_counts(col_r, lo, hi, self.bins))
             else:
                 self.ref_density.append(kde_density(col_r, self.mag))
+        self.ex = [self._exact_setup(i) if self.metric == "intersection" else None for i in range(k)]
+
+    # -- exactly decidable bin edges ------------------------------------------
+    def _exact_setup(self, i):
+        """Decide whether every projection on component i and every bin edge of its
+        support is exact in binary64 whatever the order of evaluation; if so return the
+        bookkeeping for the strict (consistent-convention) histogram oracle, else None.
+
+        Premise (all verified here in rational arithmetic, and again for every later
+        sample): the component is a signed unit vector e_j; the values of column j in
+        both windows and their mean are integer multiples of one power of two q with
+        magnitude < 2^40 q (so sums over a window are exact); with online scaling the
+        reference mean and standard deviation of the column are exactly representable,
+        the standard deviation is a power of two (dividing by it, or multiplying with
+        its reciprocal, is exact); the standardised values, the PCA centre (their
+        exact mean), the projections, the support bounds, the bin width and every bin
+        edge are again on one dyadic grid of at most 40 bits."""
+        comp = [float(c) for c in self.comps[i]]
+        nz = [j for j, c in enumerate(comp) if c != 0.0]
+        if len(nz) != 1 or abs(comp[nz[0]]) != 1.0:
+            return None
+        j = nz[0]
+        sign = 1 if comp[j] > 0 else -1
+        rows = list(self.ref) + list(self.test)
+        if not all(math.isfinite(v) for row in rows for v in row):
+            return None
+        n = len(self.ref)
+        col_r = [Fraction(row[j]) for row in self.ref]
+        col_t = [Fraction(row[j]) for row in self.test]
+        if self.scaling:
+            mu = Fraction(float(self.mu[j]))
+            sd = Fraction(float(self.sd[j]))
+            if mu * n != sum(col_r) or sd * sd * n != sum((c - mu) ** 2 for c in col_r) or not _pow2(sd):
+                return None
+        else:
+            mu, sd = Fraction(0), Fraction(1)
+        if not dyadic_grid_ok(col_r + col_t + [mu]):
+            return None
+        center = Fraction(float(self.center[j]))
+        if center * n != sum((c - mu) / sd for c in col_r):
+            return None
+        pr = [sign * ((c - mu) / sd - center) for c in col_r]
+        pt = [sign * ((c - mu) / sd - center) for c in col_t]
+        # the specification's own float projections must be these numbers
+        if [Fraction(row[i]) for row in self.rproj] != pr or [Fraction(row[i]) for row in self.tproj] != pt:
+            return None
+        lo, hi = min(pr + pt), max(pr + pt)
+        if Fraction(self.lo[i]) != lo or Fraction(self.hi[i]) != hi:
+            return None
+        width = (hi - lo) / self.bins
+        grid = [(c - mu) / sd for c in col_r + col_t] + [center, lo, hi, width]
+        grid += [width * b for b in range(self.bins + 1)] + [lo + width * b for b in range(self.bins + 1)]
+        if not dyadic_grid_ok(grid + pr + pt):
+            return None
+        A, B, ties = exact_counts(pr, lo, hi, self.bins)
+        return {
+            "col": j, "sign": sign, "mu": mu, "sd": sd, "center": center, "lo": lo, "hi": hi,
+            "raw": set(col_r + col_t + [mu]), "grid": set(grid + pr + pt),
+            "ref_counts": (A, B), "ref_ties": ties, "tproj": pt,
+        }
+
+    def _exact_slide(self, i, x, p_float):
+        """Exact projection of the new row on component i (winsorised); None (and the
+        component leaves the strict regime until the next fit) when the premise fails."""
+        ex = self.ex[i]
+        v = Fraction(x[ex["col"]]) if math.isfinite(x[ex["col"]]) else None
+        if v is None or not all(math.isfinite(c) for c in x):
+            return None
+        s = (v - ex["mu"]) / ex["sd"]
+        e = ex["sign"] * (s - ex["center"])
+        if v not in ex["raw"]:
+            if not dyadic_grid_ok(list(ex["raw"]) + [v]):
+                return None
+            ex["raw"].add(v)
+        if s not in ex["grid"] or e not in ex["grid"]:
+            if not dyadic_grid_ok(list(ex["grid"]) + [s, e]):
+                return None
+            ex["grid"].update((s, e))
+        e = min(max(e, ex["lo"]), ex["hi"])
+        if Fraction(p_float) != e:
+            return None
+        return e
 
     def _project(self, rows):
         P = (np.asarray(rows, dtype=float).reshape(-1, len(self.center)) - self.center) @ self.comps.T
@@ -327,6 +475,14 @@ class PCACDModel:
             p = self._project([self._scale([x])[0]])[0]
             if self.metric == "intersection":
                 p = [min(max(p[i], self.lo[i]), self.hi[i]) for i in range(self.num_pcs)]
+                for i in range(self.num_pcs):
+                    if self.ex[i] is not None:
+                        e = self._exact_slide(i, x, p[i])
+                        if e is None:
+                            self.ex[i] = None
+                            out["exact_dropped"] = True
+                        else:
+                            self.ex[i]["tproj"] = self.ex[i]["tproj"][1:] + [e]
             self.tproj = self.tproj[1:] + [p]
             if (self.total - 1) % self.every == 0:
                 out.update(self._check(D, impl_score))
@@ -343,9 +499,24 @@ class PCACDModel:
 
     def _check(self, D, impl_score):
         per = []  # admissible scores per component
+        exact_comps = 0  # components judged under the strict (consistent-convention) regime
+        edge_ties = 0  # values of either window lying exactly on an interior edge of such a component
+        convention_matters = False
         for i in range(self.num_pcs):
             col_t = [row[i] for row in self.tproj]
-            if self.metric == "intersection":
+            if self.metric == "intersection" and self.ex[i] is not None:
+                ex = self.ex[i]
+                tA, tB, ties = exact_counts(ex["tproj"], ex["lo"], ex["hi"], self.bins)
+                rA, rB = ex["ref_counts"]
+                sc = [float(intersection_scores([rA], [tA], self.w)[0])]
+                sB = float(intersection_scores([rB], [tB], self.w)[0])
+                if sB not in sc:
+                    sc.append(sB)
+                    convention_matters = True
+                per.append(sc)
+                exact_comps += 1
+                edge_ties += ties + ex["ref_ties"]
+            elif self.metric == "intersection":
                 tc = admissible_counts(col_t, self.lo[i], self.hi[i], self.bins)
                 per.append([float(s) for s in intersection_scores(self.ref_density[i], tc, self.w)])
             else:
@@ -386,4 +557,7 @@ class PCACDModel:
             "epoch": self.epoch,
             "ph_diff": self.ph.last_diff,
             "ph_theta": self.ph.last_theta,
+            "exact_comps": exact_comps,
+            "edge_ties": edge_ties,
+            "convention_matters": convention_matters,
         }
